@@ -96,7 +96,11 @@ type Scenario struct {
 	// AFTER computing its answer: a context is arbitrary code and a goroutine may be preempted
 	// between a ctx.Err() check and what it does next; the delay widens exactly that window.
 	CtxHooks bool
-	Label    string
+	// DelayAt: exact virtual delay for ONE hit of a hook point, keyed "point#hit" (hit = 0-based count of
+	// that point's hits in this run); overrides the table. Used by the delay-sweep layers, which perturb a
+	// base run by one (or two) precisely placed delays at a time.
+	DelayAt map[string]time.Duration
+	Label   string
 }
 
 func (sc *Scenario) Describe() map[string]any {
@@ -117,6 +121,9 @@ func (sc *Scenario) Describe() map[string]any {
 	hd := []string{}
 	for k, v := range sc.HookDelays {
 		hd = append(hd, fmt.Sprintf("%s:%v", k, v))
+	}
+	for k, v := range sc.DelayAt {
+		hd = append(hd, fmt.Sprintf("%s:=%v", k, v))
 	}
 	sort.Strings(hd)
 	return map[string]any{"label": sc.Label, "signal": sc.Sig.String(), "config": sc.Cfg.String(), "requests": reqs, "export_latency": fmt.Sprint(sc.Latency),
